@@ -15,7 +15,7 @@ try:
     for name, file, old, new in spec["MUTANTS"]:
         if only and not any(o in name for o in only):
             continue
-        out = "/verif/mutants/%s.patch" % name
+        out = os.environ.get("OUTDIR", "/verif/mutants") + "/%s.patch" % name
         b = tmp + "/b"
         shutil.rmtree(b, ignore_errors=True)
         shutil.copytree(tmp + "/a", b)
